@@ -28,6 +28,14 @@ __date__ = '2022-08-17'
 barrier = None
 memory_id = None
 
+# optional verification hook points, inert unless AEGEAN_VERIF is set
+_verif_point = None
+if os.environ.get("AEGEAN_VERIF"):
+    try:
+        from aegean_verif_hooks import point as _verif_point
+    except ImportError:
+        _verif_point = None
+
 
 def init(b, mem):
     """
@@ -157,6 +165,8 @@ def sigma_filter(filename, region, step_size, box_size, shape, domask,
     """
 
     ymin, ymax = region
+    if _verif_point is not None:
+        _verif_point("start", region)
     logging.debug('rows {0}-{1} starting at {2}'.format(ymin,
                   ymax, strftime("%Y-%m-%d %H:%M:%S", gmtime())))
 
@@ -241,15 +251,21 @@ def sigma_filter(filename, region, step_size, box_size, shape, domask,
     logging.debug("Interpolating bkg to sharemem")
     ifunc = RegularGridInterpolator((rows, cols), vals)
     interp_bkg = np.array(ifunc((gr, gc)), dtype=np.float64)
+    if _verif_point is not None:
+        _verif_point("bkg_write", region)
     ibkg[ymin:ymax, :] = interp_bkg
     del ifunc, interp_bkg
     logging.debug(" ... done writing bkg")
 
     # wait for all to complete
+    if _verif_point is not None:
+        _verif_point("wait1", region)
     i = barrier.wait()
     if i == 0:
         barrier.reset()
 
+    if _verif_point is not None:
+        _verif_point("bkg_read", region)
     logging.debug("background subtraction")
     data[0 + ymin - data_row_min: data.shape[0] -
          (data_row_max - ymax), :] -= ibkg[ymin:ymax, :]
@@ -269,16 +285,22 @@ def sigma_filter(filename, region, step_size, box_size, shape, domask,
     logging.debug("Interpolating rms to sharemem")
     ifunc = RegularGridInterpolator((rows, cols), vals)
     interp_rms = np.array(ifunc((gr, gc)), dtype=np.float64)
+    if _verif_point is not None:
+        _verif_point("rms_write", region)
     irms[ymin:ymax, :] = interp_rms
     del ifunc, interp_rms
     logging.debug(" .. done writing rms")
 
     if domask:
         # wait for all to complete
+        if _verif_point is not None:
+            _verif_point("wait2", region)
         i = barrier.wait()
         if i == 0:
             barrier.reset()
 
+        if _verif_point is not None:
+            _verif_point("mask_write", region)
         logging.debug("applying mask")
         mask = ~np.isfinite(
             data[0 + ymin - data_row_min: data.shape[0] -
@@ -286,6 +308,8 @@ def sigma_filter(filename, region, step_size, box_size, shape, domask,
         ibkg[ymin:ymax, :][mask] = np.nan
         irms[ymin:ymax, :][mask] = np.nan
         logging.debug("... done applying mask")
+    if _verif_point is not None:
+        _verif_point("end", region)
     logging.debug('rows {0}-{1} finished at {2}'.format(ymin,
                   ymax, strftime("%Y-%m-%d %H:%M:%S", gmtime())))
     return
